@@ -129,6 +129,18 @@ def run(ctx, factor):
                     d2["pattern"][j] = {k.upper(): it[k]}
             if d2 != doc:
                 one(ctx, d2, gen_rules.realise(g, doc), "letter-case-near-miss")
+        # a name is a literal text: `%ax` occurs in `%ax` but not in `%rax` / `%eax` (its letters do, the text does not)
+        if g.chance(0.15):
+            short, wide = g.pick([("%ax", ["%rax", "%eax", "%ax"]), ("%cx", ["%rcx", "%ecx", "%cx"]), ("%bp", ["%rbp", "%ebp", "%bp"]),
+                                  ("%si", ["%rsi", "%esi", "%si"]), ("%dx", ["%rdx", "%edx", "%dx"])])       # names free of regex metacharacters
+            mn = g.pick(["mov", "add", "cmp"])
+            second = g.chance(0.5)
+            d3 = {"pattern": [{mn: ["%rsp", short] if second else [short]}]}
+            if g.chance(0.3):
+                d3["config"] = {"mnemonics-full-match": g.chance(0.5), "operands-full-match": False}
+            reg = g.pick(wide)
+            ins = [("1000", "push", ["%rbx"]), ("1002", mn, ["%rsp", reg] if second else [reg, "%rdx"]), ("1005", "ret", [])]
+            one(ctx, d3, ins, "literal-name-near-miss")
         if rep.has_new() and factor > 1:
             return
 
